@@ -1,3 +1,390 @@
-/- C09: property theorems (stub, not yet built) -/
+/-
+C09 — Nodes and instances are finalized in order and never leaked.
+
+Property theorems only (helper lemmas: `Karp/Proofs/TermLemmas.lean`, `Karp/Proofs/TermWorldLemmas.lean`).
+Model: `Karp/Model/Term.lean` (one pass of the node termination controller and of the NodeClaim lifecycle controller,
+every API / provider call an outcome parameter) and `Karp/Model/TermWorld.lean` (the protocol as a transition system:
+reconciles in any order, faults, crashes, restarts, environment events).
+Spec:  `Karp/Spec/Finalize.lean` (judged on ground-truth snapshots; shares no code with the model).
+
+Shape of the result
+* single pass, ALL observations x ALL fault vectors x ALL provider answers:
+  `C09_node_finalizer`, `C09_instance_delete_in_order`, `C09_min_drain_time`, `C09_claim_finalizer_partial`;
+* ALL histories of the transition system from ANY world (any order of reconciles, any faults / crashes / restarts, pods
+  and volumes leaving at any time): `C09_step_ordered`, `C09_histories_ordered`;
+* leak-freedom as an invariant over ALL histories, under "a launch persists its provider id":
+  `C09_no_orphan_partial`, `C09_claim_finalizer_truth`;
+* the full statements fail on the code as it is; machine-checked witnesses (replayed on the real controllers, see
+  corpus/c09.*): `C09_no_orphan_fails`, `C09_relaunch_orphans`, `C09_duplicate_claims_skip_instance`.
+-/
+import Karp.Proofs.TermSpecBridge
+
 namespace Karp.C09
+open Karp.Term Karp.Gen
+open Karp.Spec.Finalize (NodeSnap ClaimSnap nodeRemovalOk claimRemovalOk instanceDeleteOk orphaned)
+
+/-! ## Fact expectations over the regenerated constants -/
+
+theorem fact_stages : Finalize.terminationStages = ["awaitDrain", "awaitVolumeDetachment", "awaitInstanceTermination"] := by decide
+theorem fact_stuck_terminating : Finalize.stuckTerminatingNs = 60 * 1000000000 ∧ Finalize.stuckTerminatingStrict = true := by decide
+
+/-- the three stages, drain first, instance last (property: "finalized in order") -/
+theorem fact_stage_order : stageOrder = [.drain, .volumes, .instance] := stageOrder_eq
+/-- `MinDrainTime` is what `awaitDrain` compares with, strictly -/
+theorem fact_min_drain : Finalize.minDrainCmpNs = Finalize.minDrainTimeNs ∧ Finalize.minDrainCmpStrict = true := by decide
+/-- inside the node's `finalize`: claim lookup, claim delete, instance-gone shortcut (Get, removeFinalizer), deadline,
+    taint, status patch, finalizer removal — the finalizer removal of the ordered path is the last call -/
+theorem fact_node_call_order :
+    Finalize.nodeFinalizeCalls = ["nodeutils.NodeClaimForNode", "kubeClient.Delete", "cloudProvider.Get", "c.removeFinalizer",
+      "c.nodeTerminationTime", "terminator.Taint", "Status().Patch", "c.removeFinalizer"] := by decide
+/-- inside the claim's `finalize`: annotation, Node lookup, Node delete, provider Delete, status patch, and only then the
+    finalizer removal and its patch -/
+theorem fact_claim_call_order :
+    Finalize.claimFinalizeCalls = ["c.ensureTerminationGracePeriodTerminationTimeAnnotation", "nodeclaimutils.AllNodesForNodeClaim",
+      "kubeClient.Delete", "cloudProvider.Delete", "Status().Patch", "controllerutil.RemoveFinalizer", "kubeClient.Patch"] := by decide
+/-- lifecycle `Reconcile`: the finalizer is added (and patched) before the sub-reconcilers (launch) run -/
+theorem fact_claim_reconcile_order :
+    Finalize.claimReconcileCalls = ["c.finalize", "controllerutil.AddFinalizer", "kubeClient.Patch", "reconciler.Reconcile",
+      "kubeClient.Patch", "Status().Patch"] := by decide
+/-- `awaitInstanceTermination`: provider Delete; any error but not-found returns; the condition is set; anything but
+    not-found requeues -/
+theorem fact_instance_stage :
+    Finalize.instanceStageCalls = ["cloudProvider.Delete", "cloudprovider.IgnoreNodeClaimNotFoundError", "SetTrue",
+      "cloudprovider.IsNodeClaimNotFoundError"] := by decide
+/-- every waiting stage requeues with a positive interval (it never falls through by way of a zero `RequeueAfter`) -/
+theorem fact_requeues_positive :
+    (Finalize.requeueDrainNs ++ Finalize.requeueVolumesNs ++ Finalize.requeueInstanceNs ++ Finalize.requeueClaimInstanceNs).all (· > 0) = true ∧
+    Finalize.requeueDrainNs.length = 2 ∧ Finalize.requeueVolumesNs.length = 1 ∧ Finalize.requeueInstanceNs.length = 1 ∧
+    Finalize.requeueClaimInstanceNs.length = 1 := by decide
+
+/-! ## Single pass: the node termination controller -/
+
+/-- **C09_node_finalizer** — for every observation (node, any list of NodeClaims, pods, volume attachments, clock), every
+    fault vector and every pair of provider answers: if a pass of the node termination controller removes the Node's
+    termination finalizer and exactly one NodeClaim carries the Node's provider id, then the specification's verdict
+    on the ground truth of that instant is positive — the node is not Ready and the provider reported the instance
+    gone, or the node is (by then) cordoned, no pod Karpenter can drain holds it, no blocking volume attachment
+    remains or the deadline passed, and the provider reported the instance gone.  (`instanceGone` is the truth about
+    the instance; the provider is honest: it answers not-found only if the instance is gone.) -/
+theorem C09_node_finalizer (now : Int) (n : NodeObs) (claims : List ClaimObs) (pods : List Pod) (vas : List VA)
+    (f : NodeFaults) (getOut delOut : ProvOut) (instanceGone : Bool)
+    (honestGet : getOut = .notFound → instanceGone = true) (honestDelete : delOut = .notFound → instanceGone = true)
+    (single : (nodeClaimOf n claims).isSome = true)
+    (h : (nodeReconcile now n claims pods vas f getOut delOut).removed = true) :
+    nodeRemovalOk (nodeSnap now (n.tainted || (nodeReconcile now n claims pods vas f getOut delOut).taintPatched) n.ready 1
+      (termOf (nodeClaimOf n claims)) pods vas instanceGone) = true := by
+  obtain ⟨_, hpath⟩ := nodeReconcile_removed _ _ _ _ _ _ _ _ h
+  unfold nodeRemovalOk
+  rcases hpath with ⟨hr, hg⟩ | hp
+  · have := honestGet hg
+    simp [nodeSnap, hr, this]
+  · have hgone := honestDelete (hp.instance_ single)
+    have hd := snap_drained now (n.tainted || (nodeReconcile now n claims pods vas f getOut delOut).taintPatched) n.ready 1
+      (termOf (nodeClaimOf n claims)) pods vas instanceGone hp.drained
+    have hv := snap_volumes now (n.tainted || (nodeReconcile now n claims pods vas f getOut delOut).taintPatched) n.ready 1
+      (termOf (nodeClaimOf n claims)) pods vas instanceGone (hp.volumes.imp (pendingVAs_mono _ _ _ _) id)
+    have ht : (n.tainted || (nodeReconcile now n claims pods vas f getOut delOut).taintPatched) = true := by
+      rcases hp.tainted with h | h
+      · simp only [Bool.and_eq_true] at h; simp [h.1]
+      · simp [h]
+    unfold NodeSnap.orderly
+    rw [hd, hv]
+    simp [nodeSnap, ht, hgone]
+
+/-- **C09_instance_delete_in_order** — "finalized in order": in every pass in which the node termination controller asks
+    the provider to terminate the instance, the node is (by then) cordoned, drained, and its volumes are detached or
+    the deadline has passed. -/
+theorem C09_instance_delete_in_order (now : Int) (n : NodeObs) (claims : List ClaimObs) (pods : List Pod) (vas : List VA)
+    (f : NodeFaults) (getOut delOut : ProvOut) (k : Nat) (instanceGone : Bool)
+    (h : Act.providerDelete ∈ (nodeReconcile now n claims pods vas f getOut delOut).calls) :
+    instanceDeleteOk (nodeSnap now (n.tainted || (nodeReconcile now n claims pods vas f getOut delOut).taintPatched) n.ready k
+      (termOf (nodeClaimOf n claims)) pods vas instanceGone) = true := by
+  obtain ⟨ht, hd, hv⟩ := nodeReconcile_providerDelete _ _ _ _ _ _ _ _ h
+  have hd' := snap_drained now (n.tainted || (nodeReconcile now n claims pods vas f getOut delOut).taintPatched) n.ready k
+    (termOf (nodeClaimOf n claims)) pods vas instanceGone hd
+  have hv' := snap_volumes now (n.tainted || (nodeReconcile now n claims pods vas f getOut delOut).taintPatched) n.ready k
+    (termOf (nodeClaimOf n claims)) pods vas instanceGone (hv.imp (pendingVAs_mono _ _ _ _) id)
+  have ht' : (n.tainted || (nodeReconcile now n claims pods vas f getOut delOut).taintPatched) = true := by
+    rcases ht with h | h
+    · simp only [Bool.and_eq_true] at h; simp [h.1]
+    · simp [h]
+  unfold instanceDeleteOk NodeSnap.orderly
+  rw [hd', hv']
+  simp [nodeSnap, ht']
+
+/-- the code also waits `MinDrainTime` after the drain started (more than the property asks): a pass that removes the
+    finalizer of a Ready node found a Drained condition on the claim, and if that condition was still Unknown, at
+    least `MinDrainTime` had passed since it was set. -/
+theorem C09_min_drain_time (now : Int) (n : NodeObs) (claims : List ClaimObs) (pods : List Pod) (vas : List VA)
+    (f : NodeFaults) (getOut delOut : ProvOut) (c : ClaimObs) (hc : nodeClaimOf n claims = some c) (hready : n.ready = true)
+    (h : (nodeReconcile now n claims pods vas f getOut delOut).removed = true) :
+    c.conds.drained ≠ .absent ∧ (c.conds.drained = .unknown → (Finalize.minDrainTimeNs : Int) ≤ now - c.conds.drainedAt) := by
+  obtain ⟨_, hpath⟩ := nodeReconcile_removed _ _ _ _ _ _ _ _ h
+  rcases hpath with ⟨hr, _⟩ | hp
+  · rw [hready] at hr; simp at hr
+  · have := hp.minDrain (by rw [hc]; rfl)
+    rw [hc] at this
+    simp only [Option.isSome_some, storedConds] at this
+    unfold minDrainPending drainInit at this
+    have hs : Finalize.minDrainCmpStrict = true := by decide
+    have he : Finalize.minDrainCmpNs = Finalize.minDrainTimeNs := by decide
+    have hm : (Finalize.minDrainTimeNs : Int) > 0 := by decide
+    cases hd : c.conds.drained
+    · simp [hd, cmpLt, hs, he] at this
+      omega
+    · simp
+    · simp
+    · simp [hd, cmpLt, hs, he] at this
+      simp [this]
+
+
+/-! ## Single pass: the NodeClaim lifecycle controller -/
+
+/-- **C09_claim_finalizer_partial** — for every claim state, Node list, fault vector and provider answer: if a pass of
+    the lifecycle controller removes the NodeClaim's termination finalizer then no Node carrying the provider id of a
+    registered claim is left, and, if the claim *records* a provider id, the provider answered `Delete` with not-found
+    (so, the provider being honest, the instance is gone).
+    Partial: the property says "if it was ever launched"; the code keys on the *persisted* `status.providerID`.  The
+    full statement fails (`C09_no_orphan_fails` below). -/
+theorem C09_claim_finalizer_partial (c : ClaimState) (nodes : List NodeRef) (cache : Bool) (f : ClaimFaults) (delOut : ProvOut)
+    (createOut : CreateOut) (instanceGone : Bool) (honestDelete : delOut = .notFound → instanceGone = true)
+    (hmine : c.pid = false → nodes.filter (·.mine) = [])
+    (h : (claimReconcile c nodes cache f delOut createOut).removed = true) :
+    claimRemovalOk { registered := c.registered = .true_, nodes := (nodes.filter (·.mine)).length, launched := c.pid,
+                     instanceGone := instanceGone } = true := by
+  rcases claimReconcile_cases c nodes cache f delOut createOut with ⟨_, he⟩ | ⟨_, _, he⟩ | ⟨_, _, he⟩
+  · rw [he] at h; simp at h
+  · rw [he] at h
+    obtain ⟨_, hn, hp⟩ := (claimFinalize_spec c nodes f delOut).removed h
+    unfold claimRemovalOk
+    simp only [Bool.and_eq_true, Bool.or_eq_true, Bool.not_eq_true', decide_eq_false_iff_not, beq_iff_eq, List.length_eq_zero_iff]
+    constructor
+    · by_cases hr : c.registered = .true_
+      · right
+        cases hpid : c.pid
+        · exact hmine hpid
+        · simpa [nodesOfClaim, hr, hpid] using hn
+      · left; exact hr
+    · cases hpid : c.pid
+      · left; rfl
+      · right; exact honestDelete (hp hpid)
+  · rw [he, (claimLaunch_spec c cache f createOut).removed] at h
+    simp at h
+
+
+/-! ## All histories: every step of the transition system, from any world
+
+(`stepOk` / `historyOk`, the snapshots `nodeSnapAt`, `claimSnapRecorded`, `claimSnapTruth`: `Karp/Proofs/TermSpecBridge.lean`) -/
+
+/-- **C09_step_ordered** — in EVERY world (reachable or not), for EVERY event: if the step removes the Node's finalizer,
+    the specification accepts the ground truth of that instant; if the node termination controller asks the provider to
+    terminate the instance, the node is cordoned, drained and detached; if the step removes the NodeClaim's finalizer,
+    its Nodes are gone (if registered) and the instance is gone (if the claim records a provider id). -/
+theorem C09_step_ordered (w : World) (e : Event) : stepOk w e = true := by
+  cases e with
+  | reconcileNode f p =>
+    unfold stepOk
+    cases hn : w.node with
+    | none => rfl
+    | some n =>
+      simp only [Bool.and_eq_true, Bool.or_eq_true, Bool.not_eq_true']
+      constructor
+      · cases hr : (w.nodePass n f p).removed
+        · left; rfl
+        · right
+          cases hs : (nodeClaimOf n w.claimObs).isSome
+          · unfold nodeRemovalOk nodeSnapAt
+            simp [nodeSnap, world_single_claim w n hs]
+          · unfold nodeSnapAt
+            have := C09_node_finalizer w.now n w.claimObs w.pods w.vas f (provAnswer w.inst p.get) (provAnswer w.inst p.delete)
+              (decide (w.inst = .gone)) (fun h => by simp [provAnswer_notFound _ _ h]) (fun h => by simp [provAnswer_notFound _ _ h]) hs hr
+            unfold World.nodePass
+            revert this
+            unfold nodeRemovalOk
+            simp only [nodeSnap]
+            intro this
+            simp only [Bool.or_eq_true] at this ⊢
+            right
+            rcases this with h | h
+            · simp at h
+            · exact h
+      · cases hm : (w.nodePass n f p).calls.contains Act.providerDelete
+        · left; rfl
+        · right
+          unfold nodeSnapAt World.nodePass
+          exact C09_instance_delete_in_order w.now n w.claimObs w.pods w.vas f (provAnswer w.inst p.get) (provAnswer w.inst p.delete) _ _
+            (by rw [← List.contains_iff_mem]; exact hm)
+  | reconcileClaim f p =>
+    unfold stepOk
+    cases hc : w.claim with
+    | none => rfl
+    | some c =>
+      simp only [Bool.or_eq_true, Bool.not_eq_true']
+      cases hr : (w.claimPass c f p).removed
+      · left; rfl
+      · right
+        unfold claimSnapRecorded
+        exact C09_claim_finalizer_partial c.st w.nodeRefs w.cache f (provAnswer w.inst p.delete) p.create (decide (w.inst = .gone))
+          (fun h => by simp [provAnswer_notFound _ _ h]) (fun h => world_nodes_of_claim w c h hc) hr
+  | _ => rfl
+
+/-- **C09_histories_ordered** — along EVERY history (any length; any order of Node and NodeClaim reconciles; any fault,
+    crash or restart at any call; pods and volumes leaving, pods arriving, the clock advancing and the instance
+    disappearing at arbitrary times) from ANY starting world, every finalizer removal and every provider `Delete` of
+    the node termination controller satisfies the specification. -/
+theorem C09_histories_ordered (es : List Event) : ∀ w : World, historyOk w es = true := by
+  induction es with
+  | nil => intro _; rfl
+  | cons e es ih => intro w; simp only [historyOk, Bool.and_eq_true]; exact ⟨C09_step_ordered w e, ih _⟩
+
+/-! ## Leak-freedom -/
+
+/-- **C09_no_orphan_partial** — from any world that satisfies the invariant (e.g. a launched, registered claim with its
+    instance, or a claim that was never reconciled), along EVERY history in which every launch persists its provider
+    id in the pass that created the instance: in every state visited, if the NodeClaim is gone then no instance launched
+    for it exists.  ("A completed deletion never orphans a cloud instance".)
+    Partial: the hypothesis `launchesPersist` is exactly what the code does not guarantee — see `C09_no_orphan_fails`. -/
+theorem C09_no_orphan_partial (w : World) (es : List Event) (h : Inv w) (hp : launchesPersist w es = true) :
+    ∀ w' ∈ trace w es, orphaned w'.claim.isSome w'.instanceExists = false := by
+  intro w' hw'
+  have hinv := inv_trace es w h hp w' hw'
+  unfold orphaned
+  cases hc : w'.claim with
+  | some c => simp
+  | none => simp [inv_no_orphan w' hinv hc]
+
+/-- **C09_claim_finalizer_truth** — in a world that satisfies the invariant, a pass that removes the NodeClaim's finalizer
+    satisfies the second sentence of the property with "launched" read as the ground truth. -/
+theorem C09_claim_finalizer_truth (w : World) (c : ClaimW) (f : ClaimFaults) (p : ProvFaults) (h : Inv w) (hc : w.claim = some c)
+    (hr : (w.claimPass c f p).removed = true) : claimRemovalOk (claimSnapTruth w c) = true := by
+  have hrec := C09_step_ordered w (.reconcileClaim f p)
+  unfold stepOk at hrec
+  simp only [hc, hr, Bool.not_true, Bool.false_or] at hrec
+  unfold claimRemovalOk claimSnapRecorded at hrec
+  unfold claimRemovalOk claimSnapTruth World.instanceExists
+  simp only [Bool.and_eq_true, Bool.or_eq_true, Bool.not_eq_true', decide_eq_true_eq, decide_eq_false_iff_not] at hrec ⊢
+  refine ⟨hrec.1, ?_⟩
+  rw [h.notLost]
+  cases hi : w.inst with
+  | gone => right; simp
+  | running =>
+    obtain ⟨c', hc', _, hp'⟩ := h.backed (by rw [hi]; simp)
+    rw [hc] at hc'; cases hc'
+    rcases hrec.2 with h2 | h2
+    · rw [hp'] at h2; simp at h2
+    · rw [hi] at h2; simp at h2
+  | terminating =>
+    obtain ⟨c', hc', _, hp'⟩ := h.backed (by rw [hi]; simp)
+    rw [hc] at hc'; cases hc'
+    rcases hrec.2 with h2 | h2
+    · rw [hp'] at h2; simp at h2
+    · rw [hi] at h2; simp at h2
+
+/-! ## Where the code violates the full statement (machine-checked witnesses; each is replayed on the real controllers)
+
+FULL STATEMENT (fails): `∀ w es, Inv w → ∀ w' ∈ trace w es, orphaned w'.claim.isSome w'.instanceExists = false`. -/
+
+/-- a claim that was just created: no finalizer, no conditions, nothing launched -/
+def freshClaim : ClaimW :=
+  { st := { managed := true, deleting := false, deletedAt := 0, finalizer := false, pid := false, fresh := true,
+            launched := .absent, registered := .absent, inst := .absent, term := .absent, tgp := none } }
+
+def freshWorld : World := { now := 0, node := none, claim := some freshClaim, pods := [], vas := [], inst := .gone }
+
+theorem freshWorld_inv : Inv freshWorld :=
+  ⟨rfl, fun h => absurd rfl h, fun c hc _ => by cases hc; rfl⟩
+
+/-- the status patch after provider `Create` fails -/
+def launchPersistFails : Event := .reconcileClaim { patchStatus := .err } {}
+/-- the process dies at the status patch after provider `Create` -/
+def launchCrashes : Event := .reconcileClaim { patchStatus := .crash } {}
+def reconcileClaimOk : Event := .reconcileClaim {} {}
+
+/-- **C09_no_orphan_fails** — provider `Create` succeeds, the status patch fails, the claim is deleted: `finalize` sees an
+    empty provider id, never calls the provider and removes the finalizer; the instance runs on, unowned.
+    (corpus/c09.protocol/001-unpersisted-provider-id.json; finding C09-unpersisted-provider-id) -/
+theorem C09_no_orphan_fails :
+    let w := run freshWorld [launchPersistFails, .deleteClaim, reconcileClaimOk]
+    Inv freshWorld ∧ w.claim = none ∧ w.inst = .running ∧ orphaned w.claim.isSome w.instanceExists = true :=
+  ⟨freshWorld_inv, by decide, by decide, by decide⟩
+
+/-- **C09_relaunch_orphans** — the process dies between provider `Create` and the status patch; after the restart the
+    launch cache is empty, `Create` runs again, and the first instance is referenced by nothing: it survives the
+    (otherwise orderly) deletion of the claim.
+    (corpus/c09.protocol/002-relaunch-after-crash.json; finding C09-instance-lost-by-relaunch) -/
+theorem C09_relaunch_orphans :
+    let w := run freshWorld [launchCrashes, reconcileClaimOk, .deleteClaim, reconcileClaimOk, .instanceGone, reconcileClaimOk]
+    w.claim = none ∧ w.inst = .gone ∧ w.lost = true ∧ orphaned w.claim.isSome w.instanceExists = true := by decide
+
+/-- **C09_duplicate_claims_skip_instance** — two NodeClaims carry the Node's provider id: the node termination controller
+    treats the Node as having none, never asks the provider, and removes the finalizer while the instance runs.
+    FULL STATEMENT of `C09_node_finalizer` without the hypothesis `single` (fails).
+    (corpus/c09.node/001-duplicate-claims.json; finding C09-node-duplicate-claims; deliberate per the code comment) -/
+theorem C09_duplicate_claims_skip_instance :
+    let n : NodeObs := { deleting := true, finalizer := true, managed := true, ready := true, tainted := true, lb := true, hasPid := true }
+    let c : ClaimObs := { deleting := true, conds := default, term := .absent, mine := true }
+    let o := nodeReconcile 0 n [c, c] [] [] {} .ok .ok
+    o.removed = true ∧ Act.providerDelete ∉ o.calls ∧
+    nodeRemovalOk (nodeSnap 0 true true 2 none [] [] false) = false := by decide
+
+/-! ## Non-vacuity -/
+
+/-- a registered claim with its Node, a pod that holds the drain, a blocking volume attachment and a running instance -/
+def runningWorld : World :=
+  { now := 100000000000,
+    node := some { deleting := false, finalizer := true, managed := true, ready := true, tainted := false, lb := false, hasPid := true },
+    claim := some { st := { managed := true, deleting := false, deletedAt := 0, finalizer := true, pid := true, fresh := false,
+                            launched := .true_, registered := .true_, inst := .absent, term := .absent, tgp := none } },
+    pods := [{ name := "pod-0", tolerates := false, mirror := false, terminal := false, deletedAt := none, hasVol := true, pv := some 1, onNode := true }],
+    vas := [{ name := "va-0", pv := some 1, onNode := true }],
+    inst := .running }
+
+example : Inv runningWorld :=
+  ⟨rfl, fun _ => ⟨_, rfl, rfl, rfl⟩, fun c hc hf => by cases hc; simp at hf⟩
+
+def rn : Event := .reconcileNode {} {}
+def happyPath : List Event :=
+  [.deleteClaim, reconcileClaimOk, rn, .podGone "pod-0", rn, .tick 5000000000, rn, .vaGone "va-0", rn, .instanceGone, rn, reconcileClaimOk]
+
+/-- the happy path runs to completion: both objects gone, the instance gone, and both finalizers were removed by
+    reconciles (so the hypotheses of the step theorems are met by concrete passes) -/
+example : (run runningWorld happyPath).node = none ∧ (run runningWorld happyPath).claim = none ∧
+    (run runningWorld happyPath).inst = .gone ∧ launchesPersist runningWorld happyPath = true := by decide
+
+/-- a pass that removes the Node's finalizer through the ordered path (hypotheses of `C09_node_finalizer`) -/
+example :
+    let n : NodeObs := { deleting := true, finalizer := true, managed := true, ready := true, tainted := true, lb := true, hasPid := true }
+    let c : ClaimObs := { deleting := true, conds := { drained := .true_, drainedAt := 0, vol := .true_, inst := .true_ }, term := .absent, mine := true }
+    (nodeClaimOf n [c]).isSome = true ∧ (nodeReconcile 10 n [c] [] [] {} .ok .notFound).removed = true := by decide
+
+/-- a pass in which the provider is asked to terminate the instance (hypothesis of `C09_instance_delete_in_order`) -/
+example :
+    let n : NodeObs := { deleting := true, finalizer := true, managed := true, ready := true, tainted := false, lb := false, hasPid := true }
+    let c : ClaimObs := { deleting := true, conds := { drained := .unknown, drainedAt := 0, vol := .absent, inst := .absent }, term := .absent, mine := true }
+    Act.providerDelete ∈ (nodeReconcile 6000000000 n [c] [] [] {} .ok .ok).calls := by decide
+
+/-- a not-ready node whose instance is gone: the shortcut -/
+example :
+    let n : NodeObs := { deleting := true, finalizer := true, managed := true, ready := false, tainted := false, lb := false, hasPid := true }
+    let c : ClaimObs := { deleting := true, conds := default, term := .absent, mine := true }
+    (nodeReconcile 0 n [c] [{ name := "p", tolerates := false, mirror := false, terminal := false, deletedAt := none, hasVol := false, pv := none, onNode := true }] [] {} .notFound .notFound).removed = true := by decide
+
+/-- a pass that removes the NodeClaim's finalizer (hypothesis of `C09_claim_finalizer_partial`) -/
+example :
+    let c : ClaimState := { managed := true, deleting := true, deletedAt := 0, finalizer := true, pid := true, fresh := false,
+                            launched := .true_, registered := .true_, inst := .true_, term := .absent, tgp := none }
+    (claimReconcile c [] false {} .notFound .ok).removed = true := by decide
+
+/-- the specification is not trivially true: a waiting pod, a blocking attachment, a missing taint and a running
+    instance are each rejected -/
+example :
+    let pod : Karp.Spec.Finalize.Pod := { tolerations := [], static := false, phase := "Running", deletedAt := none, pvs := [1] }
+    nodeRemovalOk { now := 0, tainted := true, ready := true, claims := 1, deadline := none, pods := [pod], vas := [], instanceGone := true } = false ∧
+    nodeRemovalOk { now := 0, tainted := true, ready := true, claims := 1, deadline := none, pods := [], vas := [some 1], instanceGone := true } = false ∧
+    nodeRemovalOk { now := 0, tainted := false, ready := true, claims := 1, deadline := none, pods := [], vas := [], instanceGone := true } = false ∧
+    nodeRemovalOk { now := 0, tainted := true, ready := true, claims := 1, deadline := none, pods := [], vas := [], instanceGone := false } = false ∧
+    nodeRemovalOk { now := 0, tainted := true, ready := true, claims := 1, deadline := none, pods := [], vas := [], instanceGone := true } = true ∧
+    claimRemovalOk { registered := true, nodes := 1, launched := true, instanceGone := true } = false ∧
+    claimRemovalOk { registered := true, nodes := 0, launched := true, instanceGone := false } = false := by decide
+
 end Karp.C09
